@@ -63,8 +63,14 @@ func c01DumpConst(v value.Value) string {
 	case value.Bool:
 		return "(AConst (VBool " + CoqBool(bool(c)) + "))"
 	}
+	if c01DumpConstExt != nil {
+		return "(AConst " + c01DumpConstExt(v) + ")"
+	}
 	panic(c01DumpErr{fmt.Sprintf("constant of type %T", v)})
 }
+
+// set by a dumper that knows how to print constants the optimizer creates (lists, maps, closures): C02's AST tie
+var c01DumpConstExt func(v value.Value) string
 
 func c01DumpList(l []parser2.AST) string {
 	parts := make([]string, len(l))
